@@ -32,6 +32,27 @@ CHECKS = {
  "C05": dict(engine=B, technique="stateless preemption-bounded exploration with a fair suffix and a step horizon (livelock/deadlock detection) of real posters vs the real consumer",
    text="2 (quick) or 3 (thorough) posters (fifo, lifo, mixed; capacity 500 and 3) race the running active-object thread; every schedule with <= 2 preemptions at source-line granularity is run to quiescence under a scheduler that is fair after the deviations are spent; a run that reaches the step horizon is a livelock, all-blocked with an unfinished poster is a deadlock.",
    note="Bounds: preemption bound 2, horizon 2000 scheduling points (normal runs need ~120); fairness = forced rotation after 60 consecutive points of one thread.", ref="4.5, 6/C05"),
+ "C14": dict(engine=C, technique="explicit-state BFS over operation sequences on the real HsmWithQueues vs a list reference model",
+   text="Breadth-first search over all sequences (depth <= 6 quick / 8 thorough) of post_fifo/post_lifo (4 signals, some of whose handlers post fifo/lifo from inside the step), next_rtc and complete_circuit on a real queued chart (spied and plain states), deduplicated on queue contents; every transition compares return value, dispatch log and queue contents with a plain list.",
+   note="Events with equal signals are interchangeable; capacity never reached (C16 covers overflow).", ref="5, 6/C14"),
+ "C15": dict(engine=C, technique="explicit-state BFS over operation sequences on the real HsmWithQueues vs a two-list reference model",
+   text="Breadth-first search over all sequences (depth <= 6 / 8) of posts, external defer/recall, handlers that defer and recall during a step, next_rtc and complete_circuit, deduplicated on (queue, deferred) contents; recall's return value, dispatch log and both queues compared with two lists.",
+   note="Events with equal signals are interchangeable.", ref="5, 6/C15"),
+ "C16": dict(engine=C, technique="explicit-state BFS over queue-operation sequences on the real LockingDeque (over the controlled Queue stand-in, so blocking is observable) and the real queued chart",
+   text="BFS over all sequences (depth <= 7 / 9) of append, appendleft, take-front/back (wait+pop+task_done), raw pop/popleft, clear, len on a real LockingDeque and of post_fifo/post_lifo/next_rtc on a real queued chart, capacities 2, 3 (and 500 to depth 4), deduplicated on (relative order of contents, tokens, unfinished tasks). Oracle = the property's clauses: bounded, deque-like below capacity, new event kept at its end at capacity with the survivors in order, token count, clear never raises, nothing blocks.",
+   note="Which old event an overflowing post displaces is not constrained. Concurrent posting is covered by C04/C05.", ref="5, 6/C16"),
+ "C26": dict(engine=C, technique="bounded-exhaustive enumeration of a payload/name grammar through the real dumps/loads", level="model_checking",
+   text="Every payload of a grammar (14 atoms incl. big ints, extreme floats, empty/non-ascii/lone-surrogate strings; lists and string-keyed dicts of size <= 2; nesting depth <= 3 quick / 4 thorough) x 9 kinds of signal name (new name arriving as text, known, inner, empty, non-identifier, non-ascii) is round-tripped; name, type-strict payload equality, number == this process's number, and stability of all other registry entries are checked.",
+   note="The grammar is the alphabet.", ref="5, 6/C26"),
+ "C28": dict(engine=C, technique="bounded-exhaustive enumeration of a statement grammar executed from generated source against the real descriptor, lock probed from a second thread", level="model_checking",
+   text="110 (quick) / 170 (thorough) statement templates that read or write a thread-safe attribute (12 binary operators, 6 comparisons, calls, subscripts, f-strings, conditionals, if/while/assert heads, plain/tuple/chained writes, 12 augmented assignments to the attribute and to other targets, the '_, _lock =' form, two statements per line, multi-line forms, nesting depth 2) are each executed once from a generated module; afterwards a second thread must be able to take each attribute's lock. Two line-classification corner cases are listed as known findings.",
+   note="Statement forms outside the grammar are not covered; @= excluded.", ref="5, 6/C28"),
+ "C29": dict(engine=C, technique="explicit-state BFS over create/assign/read sequences on fresh classes vs a dict per instance",
+   text="BFS over all sequences (depth <= 5 / 6) of new-instance, set and read on fresh classes with 1-2 thread-safe attributes and up to 3 instances; after every operation every attribute of every instance is read back and compared with a dict per instance (default 0).",
+   note="Values 1 and 7, attributes a and b.", ref="5, 6/C29"),
+ "C32": dict(engine=C, technique="bounded-exhaustive enumeration of miros-produced traces x perturbation catalogue through the real stripped()", level="model_checking",
+   text="Traces produced by a real queued chart under a scripted clock (6 chart names incl. None/digits/blank/non-ascii, 1-4 records, 3 clock scripts) are perturbed with a catalogue (other timestamps, blank lines, spaces/tabs around lines, CRLF, missing outer newlines: must compare equal; renamed state/signal/chart, dropped/duplicated/swapped records: must differ) and single lines are compared with the same line inside a block.",
+   note="Names contain no brackets or newlines.", ref="5, 6/C32"),
 }
 NOT_YET = "check not built yet in this round (planned, see DESIGN.md section 6)"
 
